@@ -4,10 +4,14 @@ from hypothesis import strategies as st
 POOL = [0x41, 0x62, 0x61, 0x66, 0x67, 0x200D, 0xFE0F, 0x1F3FB, 0x1F3FF, 0x1F1E6, 0x1F1E8, 0x23, 0x2A, 0x20E3, 0x2764,
         0x1F600, 0x1F601, 0x1F468, 0x1F469, 0x10FFFF, 0x21, 0xA9, 0xE000, 0xF0000]
 
+# C0 controls U+0001..U+001F are legal cmap entries and their hex spellings are the shortest ones (one digit; a..f look like letters)
 scalar = st.one_of(
     st.sampled_from(POOL),
     st.sampled_from(POOL),
+    st.sampled_from(POOL),
     st.integers(0x21, 0x10FFFF).filter(lambda c: not (0xD800 <= c <= 0xDFFF)),
+    st.integers(0x21, 0x10FFFF).filter(lambda c: not (0xD800 <= c <= 0xDFFF)),
+    st.sampled_from([0x0A, 0x0B, 0x0C, 0x0E, 0x0F, 0x01, 0x09, 0x1F]),
 )
 
 
